@@ -132,6 +132,9 @@ theorem Means.sym {σ ρ s l v} (h : σ.lookup ρ s = some v) : Means σ ρ (.sy
 theorem Means.lambda {σ ρ lam l} : Means σ ρ (.lambda lam l) (.closure lam ρ) σ.erase :=
   .of_evals Evals.lambda
 
+theorem Means.quote {σ ρ d l v σ'} (h : readLiteral σ d = (.ok v, σ')) : Means σ ρ (.quote d l) v σ'.erase :=
+  .of_evals (Evals.quote h (by simp))
+
 theorem Means.cond_true {σ ρ t c a l tv σ₁ v τ} (ht : Means σ ρ t tv σ₁) (htv : tv.truthy = true)
     (hc : Means σ₁ ρ c v τ) : Means σ ρ (.cond t c a l) v τ := by
   obtain ⟨m₁, h₁⟩ := means_iff_ref.mp ht
